@@ -535,6 +535,10 @@ def gen_text_case(rng, K):
     spec = dict(kind="text", K=K, meta=meta, bg=rng.choice(["BG.png", "my: bg.png", "é.jpg", "a,b.jpg", "", "ｂｇ　１.png"]), samples=samples, tps=tps, objs=objs, pad=False, layout=gen_layout(rng))
     if rng.random() < 0.25:
         spec["then_edit"] = gen_edits(rng)  # what was read is written, edited, written again
+    if rng.random() < 0.12:  # (16) a text that is a marker elsewhere in the format, as the ordinary value of one or two text keys
+        for k in rng.sample([k for k in meta if KEYS[k][1] == "text"], min(2, len([k for k in meta if KEYS[k][1] == "text"]))):
+            meta[k] = rng.choice(SPECIAL_TEXTS)
+    _more_dimensions(rng, spec, _distinct_text, _order_text)
     return spec
 
 
@@ -615,6 +619,133 @@ def emit_text(spec, sample_volume=True):
     return lay.get("eol", "\n").join(L) + lay.get("tail", "\n").replace("\n", lay.get("eol", "\n"))
 
 
+# ----------------------------------------------------------------------------- dimensions 14 / 16 / 17 (generator only)
+# 14: every metadata key and every column of every record non-default, non-empty and different from every sibling of its type
+D_TEXTS = ["alpha: one", "beta b", "gamma.g", "delta-4", "epsilon e", "zeta: z", "eta 7", "theta", "iota_i", "kappa k", "lambda", "mu m"]
+D_INTS = [2, 3, 6, 12, 16, 250, 1999, 31337, 77777, 99998]
+D_DECS = ["0.2", "0.9", "1.1", "1.6", "2.3", "2.7", "3.3", "3.9", "6.1", "6.6", "8.2", "9.4"]
+D_TEXT_KEYS = ("AudioFilename", "Title", "TitleUnicode", "Artist", "ArtistUnicode", "Creator", "Version", "Source")
+D_INT_KEYS = ("AudioLeadIn", "PreviewTime", "BeatDivisor", "GridSize", "BeatmapID", "BeatmapSetID")
+D_DEC_KEYS = ("StackLeniency", "DistanceSpacing", "TimelineZoom", "HPDrainRate", "OverallDifficulty", "ApproachRate", "SliderMultiplier", "SliderTickRate")
+# 16: texts that are markers ELSEWHERE in the format, as ordinary values of a key (a value is whatever follows the first ':')
+SPECIAL_TEXTS = ["[HitObjects]", "[Events]", "osu file format v14", 'Sample,0,0,"a.wav",100', '0,0,"bg.png",0,0', "Title:other", "Mode: 0", "CircleSize:4", "-1", "0", "None", "256,192,0,1,0,0:0:0:0:", "100,-100,4,1,0,100,0,0"]
+
+
+def _d_note_fields(rng):
+    ns, ad = rng.sample([1, 2, 3], 2)
+    return [rng.choice([4, 8, 10, 12, 14]), ns, ad, rng.choice([5, 6, 7, 99]), rng.choice([20, 35, 61]), rng.choice(["hit.wav", "é.ogg", "a b.wav"])]
+
+
+def _d_point_fields(rng):
+    """meter, sampleSet, sampleIndex, volume: pairwise different, none the value of a new point"""
+    return rng.choice([3, 5, 7]), rng.choice([1, 2, 3]), rng.choice([8, 9, 11]), rng.choice([20, 35, 61])
+
+
+def _distinct_text(rng, spec):
+    K, m = spec["K"], spec["meta"]
+    if not any("end" in o for o in spec["objs"]):
+        spec["objs"].append(dict(x=_x_in_column(rng, K - 1, K, "centre"), y=192, t=_time(rng), type=128, hs=None))
+        spec["objs"][-1]["end"] = spec["objs"][-1]["t"] + 50
+    if not any("end" not in o for o in spec["objs"]):
+        spec["objs"].append(dict(x=_x_in_column(rng, 0, K, "centre"), y=192, t=_time(rng), type=1, hs=None))
+    for o in spec["objs"]:
+        o["hs"] = _d_note_fields(rng)
+    for un in (1, 0):
+        if not any(t["un"] == un for t in spec["tps"]):
+            v = _bpm(rng) if un else _mult(rng)
+            spec["tps"].append(dict(t=_time(rng), bl=repr((60000.0 / v) if un else (-100.0 / v)), meter=4, ss=0, si=0, vol=100, un=un, eff=0))
+    for t in spec["tps"]:
+        t["meter"], t["ss"], t["si"], t["vol"] = _d_point_fields(rng)
+        t["eff"] = 1
+    if not spec["samples"]:
+        spec["samples"].append(dict(t=_time(rng), layer=0, file="clap.wav", quoted=True, vol=70))
+    for i, s_ in enumerate(spec["samples"]):
+        s_["vol"], s_["layer"] = [33, 70, 45][i % 3], [1, 2, 3][i % 3]
+    texts = rng.sample(D_TEXTS, len(D_TEXT_KEYS) + 1)
+    for k, v in zip(D_TEXT_KEYS, texts):
+        m[k] = v + (".mp3" if k == "AudioFilename" else "")
+    spec["bg"] = texts[-1] + ".png"
+    for k, v in zip(D_INT_KEYS, rng.sample(D_INTS, len(D_INT_KEYS))):
+        m[k] = v
+    for k, v in zip(D_DEC_KEYS, rng.sample(D_DECS, len(D_DEC_KEYS))):
+        m[k] = v
+    m.update(Countdown=1, SampleSet=rng.choice(SAMPLESETS[1:]), Mode=3, LetterboxInBreaks=1, SpecialStyle=1, WidescreenStoryboard=0, Tags=" ".join(rng.sample(TAGS, 3)), CircleSize=str(K))
+
+
+def _distinct_chart(rng, spec):
+    K, m = spec["K"], spec["meta"]
+    if not spec["hits"]:
+        spec["hits"].append([_time(rng), 0])
+    if not spec["holds"]:
+        spec["holds"].append([_time(rng), K - 1, 50.5])
+    if not spec["bpms"]:
+        spec["bpms"].append([_time(rng), _bpm(rng)])
+    if not spec["svs"]:
+        spec["svs"].append([_time(rng), _mult(rng)])
+    if not spec["samples"]:
+        spec["samples"].append([_time(rng), "clap.wav", 70])
+    spec["hits"] = [h[:2] + _d_note_fields(rng) for h in spec["hits"]]
+    spec["holds"] = [h[:3] + _d_note_fields(rng) for h in spec["holds"]]
+    for rows, n in ((spec["bpms"], 2), (spec["svs"], 2)):
+        for i, r in enumerate(rows):
+            meter, ss, si, vol = _d_point_fields(rng)
+            rows[i] = r[:2] + ([meter] if rows is spec["bpms"] else []) + [ss, si, vol, True]
+    for i, s_ in enumerate(spec["samples"]):
+        s_[2] = [33, 70, 45][i % 3]
+    texts = rng.sample(D_TEXTS, 9)
+    for k, v in zip(("audio_file_name", "title", "title_unicode", "artist", "artist_unicode", "creator", "version", "source"), texts):
+        m[k] = v + (".mp3" if k == "audio_file_name" else "")
+    m["background_file_name"] = texts[-1] + ".png"
+    for k, v in zip(("audio_lead_in", "preview_time", "beat_divisor", "grid_size", "beatmap_id", "beatmap_set_id", "slider_tick_rate"), rng.sample(D_INTS, 7)):
+        m[k] = v
+    for k, v in zip(("stack_leniency", "distance_spacing", "timeline_zoom", "hp_drain_rate", "overall_difficulty", "approach_rate", "slider_multiplier"), rng.sample(D_DECS, 7)):
+        m[k] = float(v)
+    m.update(countdown=True, sample_set=rng.choice([1, 2, 3]), mode=3, letterbox_in_breaks=True, special_style=True, widescreen_storyboard=False, tags=rng.sample(TAGS, 3), circle_size=float(K))
+
+
+# 17: which KIND of element (object, tempo point, SV point, sample event) is the earliest / the latest of the whole chart
+ORDER_MODES = ("first", "first_tied", "last", "last_tied")
+
+
+def _reorder_kinds(rng, kinds, get, put):
+    """kinds: name -> list of elements.  One element of one kind is moved strictly before / exactly onto the earliest element of
+    ALL kinds, or strictly after / exactly onto the latest.  -> label or None"""
+    present = [k for k, v in kinds.items() if v]
+    if len(present) < 2:
+        return None
+    allt = [get(e) for v in kinds.values() for e in v]
+    k, mode = rng.choice(present), rng.choice(ORDER_MODES)
+    e = rng.choice(kinds[k])
+    new = {"first": min(allt) - rng.choice([1, 250, 1000.5]), "first_tied": min(allt), "last": max(allt) + rng.choice([1, 250, 1000.5]), "last_tied": max(allt)}[mode]
+    put(e, new)
+    return f"{k}_{mode}"
+
+
+def _order_text(rng, spec):
+    def put(e, t):
+        if "end" in e:
+            e["end"] = t + (e["end"] - e["t"])
+        e["t"] = t
+
+    return _reorder_kinds(rng, dict(object=spec["objs"], tempo=[t for t in spec["tps"] if t["un"]], sv=[t for t in spec["tps"] if not t["un"]], sample=spec["samples"]), lambda e: e["t"], put)
+
+
+def _order_chart(rng, spec):
+    return _reorder_kinds(rng, dict(hit=spec["hits"], hold=spec["holds"], tempo=spec["bpms"], sv=spec["svs"], sample=spec["samples"]), lambda e: e[0], lambda e, t: e.__setitem__(0, t))
+
+
+def _more_dimensions(rng, spec, distinct, order):
+    dims = []
+    if rng.random() < 0.2:
+        distinct(rng, spec)
+        dims.append("all_fields_distinct")
+    if rng.random() < 0.3:
+        lab = order(rng, spec)
+        if lab:
+            dims.append(lab)
+    spec["dims"] = dims
+
+
 LABEL_MODES = [None, None, None, "gappy", "rev", "perm", "sorted", "filtered", "dup"]
 LIST_NAMES = ("hits", "holds", "bpms", "svs", "samples")
 
@@ -663,6 +794,10 @@ def gen_chart_case(rng, K):
     spec["file"]["existing"] = rng.choice(["longer", "shorter", "other_chart"])  # what the path holds when over_existing
     if rng.random() < 0.3:
         spec["then_edit"] = gen_edits(rng)
+    if rng.random() < 0.12:  # (16)
+        for k in rng.sample([k for k in meta if k in ("title", "title_unicode", "artist", "artist_unicode", "creator", "version", "source", "audio_file_name", "background_file_name")] or ["title"], 1):
+            meta[k] = rng.choice(SPECIAL_TEXTS)
+    _more_dimensions(rng, spec, _distinct_chart, _order_chart)
     return spec
 
 
@@ -1101,7 +1236,10 @@ def wholemap_read_vs_denotation(rep):
                  f"[Events] as the editor writes it, with a video event after / BEFORE the background, with break periods and storyboard sprites, and without the comment lines; handed to read() as split lines, as lines with terminators, through an instance; "
                  f"read_file with str and Path (a third of the cases), two thirds of those from a path that held another - 50 objects longer / 30-line seven-key - file which was read first; "
                  f"a second result of the same text edited afterwards (30 %); the same text read again after a result was edited in place and a seven-key text was read (20 %); what was read is written, edited through 1..3 of {len(EDIT_OPS)} public operations "
-                 f"({', '.join(EDIT_OPS)}) and written again (25 %); value range: hit-sample index up to 2^31-1, sample index 99, volume 0, meters 1 and 16")
+                 f"({', '.join(EDIT_OPS)}) and written again (25 %); value range: hit-sample index up to 2^31-1, sample index 99, volume 0, meters 1 and 16; "
+                 f"(14) in a fifth of the texts EVERY metadata key and every field of every hit / hold / timing point / sample is non-default, non-empty and different from every sibling of its type (at least one hit, hold, tempo point, SV point and sample each); "
+                 f"(16) in 12 % one or two text keys hold a text that is a marker elsewhere in the format ({len(SPECIAL_TEXTS)} such: section headers, the format line, event / timing-point / hit-object lines, 'Key:value', -1, 0, None); "
+                 f"(17) in 30 % one element of one kind (object, tempo point, SV point, sample) is moved strictly before / exactly onto the earliest, or strictly after / onto the latest element of ALL kinds (spec['dims'])")
     rep.rule = "a case is one whole text and its layout; non-trivial when it has at least one object; each text is first parsed by the oracle itself (must be in the dialect, and must denote what the spec says)"
     explored, explored2, layouts = {}, {}, {}
     for i in range(-18, N):
@@ -1292,7 +1430,9 @@ def wholemap_write_vs_denotation(rep):
                  f"permuted rows, sorted(), filtered (labels 1..n), duplicate labels; numbers as python int / float, all float, or numpy scalars; write_file / read_file with str and Path, onto a new file and over a longer existing one (a quarter of the cases); "
                  f"a second write of the same object; a second chart of the same values edited and written in between (30 %); write_file over a longer file, over a shorter seven-key file, and over the file of another chart that was itself "
                  f"written by write_file and read back (a third each); 30 % of the charts are, after the first write, changed through 1..3 of {len(EDIT_OPS)} public operations ({', '.join(EDIT_OPS)}: offsets through the list property and through the stack, "
-                 f"columns / bpm / multipliers in place, items appended, new / empty lists assigned, metadata set, rate(1.25)) and written again: the text must denote the chart as it is then; value range as for the texts")
+                 f"columns / bpm / multipliers in place, items appended, new / empty lists assigned, metadata set, rate(1.25)) and written again: the text must denote the chart as it is then; value range as for the texts; "
+                 f"(14) a fifth of the charts have EVERY metadata field and every column of every hit / hold / tempo / SV / sample row non-default, non-empty and different from every sibling of its type; (16) 12 % carry a text that is a marker elsewhere in the format in one text field; "
+                 f"(17) in 30 % one row of one list is moved strictly before / onto the earliest or after / onto the latest row of ALL lists (spec['dims'])")
     rep.rule = "a case is one whole chart (finite offsets, non-zero bpm, non-zero SV multipliers) and how it is held in memory; non-trivial when it has at least one object"
     for i in range(N):
         if rep.out_of_time(40, 320):
